@@ -313,3 +313,32 @@ package kvm
 //@   safe
 //@   modifies *
 //@   opt assumecallreqs
+
+// CREATE2 hands the new frame exactly the gas it charged its own frame for (what comes back is credited
+// afterwards): charging less than it passes on would create gas.
+//@ func opCreate2(pc *uint64, kvm *KVM, callContext *ScopeContext) (r []byte, err error)
+//@   for C09 C10
+//@   requires kvm != nil && callContext != nil && callContext.Stack != nil && callContext.Memory != nil && callContext.Contract != nil && len(callContext.Stack.data) >= 4
+//@   modifies *
+//@   opt assumecallreqs
+//@   atcall KVM.Create2 requires [passesOnWhatItCharged] gas == arg(Contract.UseGas, 1)
+
+// A delegate call runs the CALLEE's code under the callee's code hash (the hash keys the cached
+// jump-destination analysis): code, hash and code address all name the same account.
+//@ func (kvm *KVM) DelegateCall(caller ContractRef, addr common.Address, input []byte, gas uint64) (ret []byte, leftOverGas uint64, err error)
+//@   for C10
+//@   requires kvm != nil && caller != nil
+//@   modifies *
+//@   opt assumecallreqs
+//@   opt noinline
+//@   atcall Contract.SetCallCode requires [codeHashAndCodeOfTheSameAccount] *addr == outer(addr) && arg(StateDB.GetCodeHash, 1) == outer(addr) && arg(StateDB.GetCode, 1) == outer(addr) && hash == result(StateDB.GetCodeHash) && sameArray(code, result(StateDB.GetCode))
+
+// STATICCALL copies the callee's return data into the caller's output area on success AND on revert
+// (revert data is data), and only then.
+//@ func opStaticCall(pc *uint64, kvm *KVM, callContext *ScopeContext) (r []byte, err error)
+//@   for C10
+//@   requires kvm != nil && callContext != nil && callContext.Stack != nil && callContext.Memory != nil && callContext.Contract != nil && len(callContext.Stack.data) >= 6
+//@   modifies *
+//@   opt assumecallreqs
+//@   ensures [returnDataCopiedOnSuccessAndRevert] called(Memory.Set) <==> (result(KVM.StaticCall, 2) == nil || result(KVM.StaticCall, 2) == ErrExecutionReverted)
+//@   atcall Memory.Set requires [copiesTheCallsReturnData] sameArray(value, result(KVM.StaticCall, 0)) && len(value) == len(result(KVM.StaticCall, 0))
